@@ -90,6 +90,10 @@ package collection
 //@   ensures [absent] !found ==> calls(PushBack) == 0 && calls(Put) == 0
 //@   ensures [reschedule] found && task.delay >= w.interval ==>
 //@     | untilFire(timer.pos, timer.item.circle, timer.item.diff, w.tickedPos, w.numSlots) == task.delay / w.interval
+// moving to an earlier tick leaves the old entry behind as a tombstone (it is still linked in its old slot and must
+// not fire there) and indexes a new live entry; moving later keeps the one entry, live
+//@   ensures [moved-earlier-leaves-a-tombstone] found && calls(PushBack) == 1 ==> old(timer.item).removed && timer.item != old(timer.item) && !timer.item.removed && timer.item.value == old(timer.item.value)
+//@   ensures [moved-later-keeps-the-entry] found && task.delay >= w.interval && calls(PushBack) == 0 ==> timer.item == old(timer.item) && timer.item.removed == old(timer.item.removed)
 
 // One scan step over the entry `e` of the slot being ticked (four-way case split, in this order):
 //   removed            -> dropped from the slot, not run, index untouched
